@@ -5,6 +5,7 @@ from harness.runner import run_property
 PROP = "C04"
 THEOREMS = [
     "Lbfgsb.C04.projgr_shift",
+    "Lbfgsb.C04.projgr_smul",
     "Lbfgsb.C04.message_documented",
     "Lbfgsb.C04.thresholds",
     "Lbfgsb.C04.report_truthful",
